@@ -58,8 +58,32 @@ private def getTables (j : Json) : M Tables := do
 private def evJson (e : Ev Word) : Json :=
   Json.arr #[jStrs (e.cues.map String.ofList), jStrs (e.outcomes.map String.ofList)]
 
-/-- op create_events: the data lines `create_event_file` writes, or — with
-    `"exists": true` — the effect model's answer for an existing event file. -/
+private def getRanges (j : Json) (k : String) : M (List (Char × Char)) :=
+  match getOpt j k with
+  | none => pure []
+  | some v => do
+    let rs ← asArr v
+    rs.toList.mapM fun r => do
+      match (← asArr r).toList with
+      | [lo, hi] => pure ((← oneChar (← asStr lo)), (← oneChar (← asStr hi)))
+      | _ => throw "range must be [lo, hi]"
+
+/-- op create_events: the data lines `create_event_file` writes, or the
+    exception class and what the call leaves behind.
+
+    Optional inputs (absent = the behaviour before they existed):
+      "exists": true        the event file exists already
+      "unreadable": true    the corpus is not valid UTF-8: the line iterator
+                            yields "lines" and then raises UnicodeDecodeError
+      "raises": [[lo,hi]…]  the `allowed_symbols` callable (kind "table") raises
+                            on these characters
+    Replies:
+      {"events": …}                                            normal return
+      {"err":"Raised:IO","file_unchanged":b}                   event file exists
+      {"err":"Raised:IO"}                                      corpus missing
+      {"err":"Raised:Other","left":null}                       re.error (bad set expression), nothing created
+      {"err":"Raised:Value","left":[events]}                   UnicodeDecodeError; header + "left" stay behind
+      {"err":"Raised:Callable","left":[events]}                the callable raised; header + "left" stay behind -/
 def opCreateEvents (j : Json) : M Json := do
   let t ← getTables j
   let ctx ← match ← getStr j "context" with
@@ -74,17 +98,26 @@ def opCreateEvents (j : Json) : M Json := do
     lowerCase := getBoolD j "lower_case" false
     removeDuplicates := getBoolD j "remove_duplicates" true }
   let lines := (← asStrList (← j.getObjVal? "lines")).map String.toList
+  let raiseRanges ← getRanges j "raises"
+  let unreadable := getBoolD j "unreadable" false
   let fs0 : FS := fun p =>
-    if p == "corpus" then some (.corpus lines)
+    if p == "corpus" then some (if unreadable then .badText lines else .corpus lines)
     else if p == "events" && getBoolD j "exists" false then some (.other 0)
     else none
-  match createEventFile t o "corpus" "events" fs0 with
+  let left (fs1 : FS) : Json := match fs1 "events" with
+    | some (.events es) => Json.arr (es.map evJson).toArray
+    | _ => Json.null
+  match createEventFileX (inRanges raiseRanges) t.ops o "corpus" "events" fs0 with
   | (.error .eventFileExists, fs1) =>
     let same := match fs1 "events", fs1 "corpus" with
       | some (.other 0), some (.corpus _) => true
+      | some (.other 0), some (.badText _) => true
       | _, _ => false
     pure (Json.mkObj [("err", Json.str "Raised:IO"), ("file_unchanged", Json.bool same)])
-  | (.error _, _) => pure (Json.mkObj [("err", Json.str "Raised:IO")])
+  | (.error .corpusMissing, _) => pure (Json.mkObj [("err", Json.str "Raised:IO")])
+  | (.error .badPattern, fs1) => pure (Json.mkObj [("err", Json.str "Raised:Other"), ("left", left fs1)])
+  | (.error .corpusNotText, fs1) => pure (Json.mkObj [("err", Json.str "Raised:Value"), ("left", left fs1)])
+  | (.error .callableRaised, fs1) => pure (Json.mkObj [("err", Json.str "Raised:Callable"), ("left", left fs1)])
   | (.ok (), fs1) =>
     match fs1 "events" with
     | some (.events es) => pure (Json.mkObj [("events", Json.arr (es.map evJson).toArray)])
